@@ -11,7 +11,7 @@ TOK = {"ident": ["zz", "\\61 b", "-x"], "IDENT-and": ["and"], "ident-important":
        "dimension": ["1px", "2e3"], "dimension-esc": ["1\\a x", "1\\70 x"], "number-huge": ["9" * 400, "1" + "0" * 400 + ".5"], "urange": ["u+0-7f"], "~=": ["~="], "|=": ["|="], "cdo": ["<!--"], "cdc": ["-->"], "S": [" ", "\t"],
        "comment": ["/*c*/"], "{": ["{"], "}": ["}"], "(": ["("], ")": [")"], "[": ["["], "]": ["]"], ";": [";"], ":": [":"], ",": [","], ".": ["."],
        "*": ["*"], ">": [">"], "+": ["+"], "!": ["!"], "/": ["/"], "=": ["="], "#": ["#"], "@": ["@"], "%": ["%"], "&": ["&"], "$": ["$"],
-       "-": ["-"], "bs": ["\\"], "open-string": ['"abc', "'abc"], "open-comment": ["/* abc"], "open-url": ["url(abc", 'url("abc'],
+       "-": ["-"], "|": ["|"], "bs": ["\\"], "open-string": ['"abc', "'abc"], "open-comment": ["/* abc"], "open-url": ["url(abc", 'url("abc'],
        "nonascii": ["é"], "astral": ["\U0001F600"], "ctl": ["\x01", "\x00"], "nl": ["\n", "\r\n", "\f"]}
 CTX = {"sheet": "", "after-charset": '@charset "utf-8"', "import-prelude": "@import ", "namespace-prelude": "@namespace ", "media-prelude": "@media ",
        "media-rules": "@media print { ", "page-prelude": "@page ", "page-block": "@page { ", "fontface-block": "@font-face { ",
@@ -20,8 +20,13 @@ CTX = {"sheet": "", "after-charset": '@charset "utf-8"', "import-prelude": "@imp
        "rgb-arg": "a { x: rgb(", "hsl-arg": "a { x: hsl(", "var-arg": "a { x: var(", "var-fallback": "a { x: var(y,", "calc-arg": "a { x: calc(", "url-open": "a { x: url(", "paren": "a { x: (", "bracket": "a { x: [",
        "style-attr": "", "margin-block": "@page { @top-left { "}
 NEST = {"{": ("{", "}"), "(": ("(", ")"), "[": ("[", "]"), "func": ("f(", ")"), "calc(": ("calc(", ")"), "not(": (":not(", ")"),
-        "@media": ("@media print {", "}"), "@x-block": ("@x {", "}"), "url(": ("url(", ")"), "rgb(": ("rgb(", ")"), "hsl(": ("hsl(", ")"), "var(": ("var(", ")"), "var-fallback": ("var(v,", ")"), "func-comma": ("f(1,", ")"), "calc-sum": ("calc(1px + ", ")"),
+        "@media": ("@media print {", "}"), "@media-rule": ("@media print {", "}"), "@x-block": ("@x {", "}"), "url(": ("url(", ")"), "rgb(": ("rgb(", ")"), "hsl(": ("hsl(", ")"), "var(": ("var(", ")"), "var-fallback": ("var(v,", ")"), "func-comma": ("f(1,", ")"), "calc-sum": ("calc(1px + ", ")"),
         "paren-in-selector": ("a(", ")"), "attr-in-not": (":not([", "])"), "string-in-func": ('f("', '")'), "comment": ("/*", "*/")}
+RUN_OPEN = {"url(": ("url(", ")"), "url-dq": ('url("', '")'), "url-sq": ("url('", "')"), "dq": ('"', '"'), "sq": ("'", "'"), "comment": ("/*", "*/"),
+            "ident": ("a", " "), "hash": ("#", " "), "number": ("1", "px"), "at": ("@", ";"), "func": ("f(", ")"), "urange": ("u+", " "),
+            "cdo": ("<!--", "-->"), "attr-dq": ('[a="', '"]'), "important": ("!", "important"), "bs": ("\\", " ")}
+RUN_BODY = {"letters": "a", "digits": "1", "spaces": " ", "bs-pairs": "\\\\", "stars": "*", "escaped-quotes": '\\"', "nonascii": "\u00e9", "hex-escapes": "\\41 ",
+            "dashes": "-", "nl-escapes": "\\\n", "slashes": "/", "dots": "."}
 TEXTS = {"plain": 'a { left: 0 } @media print { b { top: 1px } }', "malformed": 'a { left: } } @import "late"; b {{ x ]',
          "charset-hex": '@charset "hex";\na { left: 0 }', "charset-css": '@charset "css";\na { left: 0 }',
          "charset-rot13": '@charset "rot13";\na { left: 0 }', "charset-unknown": '@charset "no-such-encoding";\na { left: 0 }',
@@ -157,8 +162,10 @@ def run_row(item):
     if k == "tokens":
         parts = [TOK[t][(rid + i) % len(TOK[t])] for i, t in enumerate(r["toks"])]
         seps = ["", " ", ""]
-        text = CTX[r["ctx"]] + seps[rid % 3].join(parts)
-        if rid % 5 == 0:
+        text = CTX[r["ctx"]] + ("" if r.get("glue") else seps[rid % 3]).join(parts)
+        if r.get("glue") and rid % 2:
+            text += (")" if r["ctx"] == "not-arg" else "") + " { left: 0 }"        # the soup is the selector of a complete rule
+        elif rid % 5 == 0:
             text += " }"      # sometimes closed afterwards
         o = observe(text, r["entry"], comments=opts[0], validate=opts[1])
     elif k == "propvalue":
@@ -166,10 +173,16 @@ def run_row(item):
                  "many-strings-then-number": '"s" ' * 20 + "1", "nested-functions": "f(" * 12 + "1" + ")" * 12 + " x"}[r["shape"]]
         text = "a { %s: %s }" % (r["name"], shape)
         o = observe(text, "string", comments=opts[0], validate=True)
+    elif k == "longrun":
+        op = RUN_OPEN[r["opener"]]
+        text = op[0] + RUN_BODY[r["body"]] * r["n"] + {"eof": "", "newline-rule": "\nb { top: 0 }", "closer": op[1], "junk": " \x01 ) ] } ;"}[r["end"]]
+        if r["ctx"] == "decl-value":
+            text = "a { x: " + text + ("" if r["end"] == "eof" else " }")
+        o = observe(text, "string", comments=opts[0], validate=opts[1])
     elif k == "nest":
         op, cl = NEST[r["opener"]]
         d = r["depth"]
-        core = "1px" if r["opener"].startswith("calc") else "x"
+        core = "1px" if r["opener"].startswith("calc") else "a { left: 0 }" if r["opener"] == "@media-rule" else "x"
         text = CTX[r["ctx"]] + op * d + core + (cl * d if r["close"] else "")
         o = observe(text, "string", comments=opts[0], validate=opts[1])
     else:
